@@ -147,7 +147,7 @@ def case_run(task):
     if case['nh'] == 1 and case['c'] == 0 and case['zero'] and case['top'] and src and dst and not case['a_abs'] and not case['b_abs']:
         tags = {KF01}
     if dialect.startswith('diff-N') and (case['a_abs'] if rev else case['b_abs']):
-        tags = {KF05}
+        tags = tags | {KF05}   # (the class of the former KF-05, repaired)
     mode = o.cls if o.cls not in ('0', '1') else ('not-applied' if o.cls == '1' else 'wrong-tree')
     out['violations'].append((wsweep.cls(tags), mode, {'kind': 'cli', 'files': {k: [common.b2s(v[0]), v[1]] for k, v in start.items()}, 'patches': {'p1.patch': common.b2s(text)}, 'series': [line],
                                                        'args': ['-a', '-q', '--backup', 'never'], 'threads': threads, 'series_desc': 'dialect %s%s' % (dialect, ' -R' if rev else ''),
